@@ -537,3 +537,116 @@ Definition ideal_screen (md : mode) (bs : nat) (c : nat) : Z :=
   match md with Retro => 0 | Prosp => Z.of_nat (c / bs) end.
 Definition ideal_stamped (md : mode) (bs : nat) (c : nat) : step * Z * launch :=
   (step_of bs c, ideal_screen md bs c, ideal_launch md bs c).
+
+(* ---------- vocabulary of the source-translation link (harness/src_functions.py C19_*, Generated/SrcOrchestrate.v) ----------
+   The translated functions of nextflow/scripts/batchie.py compute over these values:
+     a path the script holds is the model value it denotes -
+       outdir                         the tree (fs) that is there when the function reads it
+       outdir/iter_<i>                iter_path  = (i, its plate directories)     (as globbed by examine)
+       outdir/iter_<i>/plate_<j>      plate_path = ((i, j), its files)            (as globbed by examine)
+       a path the script BUILDS with os.path.join(outdir, f"iter_{i}", f"plate_{j}") is the step (i, j); with one
+       component the iteration index i; the directory need not exist
+       a screen file                  spath
+     the metadata object json.load returns is its n_unobserved_plates entry (the only one the script reads)
+   Exceptions: sres.  SNamed = the two RuntimeErrors of examine that name a job directory; SRaised done why = any other
+   exception, raised after the file-system actions [done] of this call (why: 1 no test screen, 2 no thetas / distance
+   chunks, 9 None in a command line, 98 IndexError, 99 None where a value is needed). *)
+Inductive sres (A : Type) :=
+| SOk (a : A)
+| SNamed (why : Z) (s : step)
+| SRaised (done : list action) (why : Z).
+Arguments SOk {A} a.
+Arguments SNamed {A} why s.
+Arguments SRaised {A} done why.
+Definition sbind {A B} (r : sres A) (k : A -> sres B) : sres B :=
+  match r with SOk a => k a | SNamed w s => SNamed w s | SRaised d w => SRaised d w end.
+Notation "'dos' x <- e ; k" := (sbind e (fun x => k))
+  (at level 200, x pattern, e at level 100, k at level 200, right associativity).
+Fixpoint sfold {S A : Type} (f : S -> A -> sres S) (l : list A) (s : S) : sres S :=
+  match l with
+  | [] => SOk s
+  | a :: r => dos s' <- f s a; sfold f r s'
+  end.
+Definition sunwrap {A : Type} (o : option A) : sres A :=
+  match o with Some a => SOk a | None => SRaised [] 99 end.
+
+Definition iter_path := (Z * idir)%type.
+Definition plate_path := (step * pdir)%type.
+Definition iter_index (d : iter_path) : Z := fst d.                 (* dir_sort_key of outdir/iter_<i> *)
+Definition plate_index (p : plate_path) : Z := snd (fst p).         (* dir_sort_key of outdir/iter_<i>/plate_<j> *)
+(* glob.glob(outdir + "/iter_*"): the entries of the tree, in the order the tree lists them *)
+Definition glob_iters (f : fs) : list iter_path := f.
+(* glob.glob(iter_dir + "/plate_*") *)
+Definition glob_plates (d : iter_path) : list plate_path := map (fun p => ((fst d, fst p), snd p)) (snd d).
+(* sorted(l, key=k), the algorithm of sort_dirs for an arbitrary key *)
+Fixpoint insert_by {A} (key : A -> Z) (p : A) (l : list A) : list A :=
+  match l with
+  | [] => [p]
+  | q :: r => if key p <? key q then p :: q :: r else q :: insert_by key p r
+  end.
+Fixpoint sort_by {A} (key : A -> Z) (l : list A) : list A :=
+  match l with [] => [] | p :: r => insert_by key p (sort_by key r) end.
+(* validate_job_dir_and_return_meta / get_screen_from_job_output of a globbed plate directory *)
+Definition meta_of (p : plate_path) : option Z := f_meta (snd p).
+Definition screen_of_path (p : plate_path) : option spath := screen_of (Some p).
+
+(* the result of examine in the translation's monad *)
+Definition sres_of_xres {A} (r : xres A) : sres A :=
+  match r with XOk a => SOk a | XNamed w s => SNamed w s end.
+
+(* -- run_next_retrospective_step / run_next_prospective_step: the file-system actions of a call are appended to a list
+   (the translation's state variable `acts`); what the script reads from the output directory it reads from the tree as
+   it is THEN: the tree at entry after the actions done so far *)
+Definition ename := unit.                         (* the experiment name (basename of --screen): not modelled *)
+Definition tree_after (f : fs) (done : list action) : fs := fold_left (fun f a => apply_action a f) done f.
+(* get_selected_plates(outdir/iter_<i>): the recorded selections, None when there are none *)
+Definition get_selected (f : fs) (i : Z) : option (list Z) :=
+  match selected_plates f i with [] => None | l => Some l end.
+(* get_test_screen_from_job_output(outdir/iter_<i>/plate_<j>): it globs for training.screen.h5 *)
+Definition test_screen_of (f : fs) (s : step) : option spath :=
+  if has_training f s then Some (SFile s KTraining) else None.
+(* get_theta_and_dist_chunks(outdir/iter_<i>/plate_<j>): ValueError unless both globs match; the answer names that directory *)
+Definition theta_chunks (f : fs) (done : list action) (s : step) : sres step :=
+  if has_thetas_dist f s then SOk s else SRaised done 2.
+(* run_*: the command line is built from the arguments; a None among them is a TypeError (' '.join) before anything is
+   started; otherwise the pipeline is launched *)
+Definition launch_cmd (done : list action) (s : step) (l : option launch) : sres (list action) :=
+  match l with Some l => SOk (done ++ [ALaunch s l]) | None => SRaised done 9 end.
+Definition first_cmd (training test : option spath) : option launch :=
+  match training, test with Some tr, Some te => Some (LFirst tr te) | _, _ => None end.
+Definition next_cmd (screen : option spath) (thetas_from : step) (excludes : option (list Z)) : option launch :=
+  match screen with
+  | Some sp => Some (LNext sp thetas_from (match excludes with Some l => l | None => [] end))   (* excludes=None: no --excludes *)
+  | None => None
+  end.
+
+(* what a call of run_next_* does and hands back, as the translation expresses it: (return value, actions) *)
+Definition result_of_plan (md : mode) (bs : Z) (p : plan) : sres (bool * list action) :=
+  match p with
+  | PNamed w s => SNamed w s
+  | PDone => SOk (false, [])
+  | PActs l =>
+      match rev l with
+      | ALaunch s _ :: _ => SOk (match md with Retro => true | Prosp => snd s <? bs - 1 end, l)
+      | AFail w :: r => SRaised (rev r) w
+      | _ => SRaised l 0
+      end
+  end.
+
+(* -- the helper functions of the script themselves: what their globs return.  The <name> directory level is abstracted:
+   a glob for one file name under a job directory has at most one match (thetas*.h5 / distance_matrix_chunk*.h5: only
+   whether there is a match is used).  A screen_metadata.json / selected_plate file is the value the script reads from it. *)
+Definition glob_in_plate (p : plate_path) (k : kind) : list spath :=       (* under a globbed plate directory *)
+  if produced (snd p) k then [SFile (fst p) k] else [].
+Definition glob_meta (p : plate_path) : list Z :=
+  match f_meta (snd p) with Some m => [m] | None => [] end.
+Definition job_path := (fs * step)%type.        (* a path BUILT by os.path.join, with the tree it is resolved in *)
+Definition glob_in_job (p : job_path) (k : kind) : list spath :=
+  match get_plate (fst p) (snd p) with
+  | Some d => if produced d k then [SFile (snd p) k] else []
+  | None => []
+  end.
+Definition iter_job_path := (fs * Z)%type.      (* outdir/iter_<i> built by os.path.join, with the tree *)
+Definition glob_selected (p : iter_job_path) : list Z := selected_plates (fst p) (snd p).
+(* l[0]: IndexError on an empty list *)
+Definition shead {A} (l : list A) : sres A := match l with a :: _ => SOk a | [] => SRaised [] 98 end.
